@@ -1,68 +1,214 @@
 // Harness for C06 (collection/redblack): drives the exported API of redblack.Tree[int,int] with a counting compare
 // function; `dump` and `inv` look at the real nodes through go/overlay/redblack_verif.go (build tag verif).
+//
+// Exported API of the anchored files and the op that calls it:
+//
+//	New                         reset <order> [<style>]   (two trees per history, see `swap`)
+//	Insert                      ins k v, pins k v
+//	Remove                      rem k, prem k
+//	Get                         get k, pget k, re-entrant visitors
+//	Count, Empty                count
+//	First, Last                 first, last
+//	Traverse                    trav j, ptrav j kind
+//	ReverseTraverse             rtrav j, prtrav j kind
+//	TraverseStartingAt          travfrom k j, ptravfrom k j kind
+//	ReverseTraverseStartingAt   rtravfrom k j, prtravfrom k j kind
+//	Dump                        dumpapi (stdout captured through a pipe)
 package main
 
 import (
 	"cmp"
-	"fmt"
+	"errors"
+	"io"
+	"math"
 	"math/bits"
 	"os"
+	"slices"
 	"strconv"
 	"strings"
-	"sync/atomic"
+	"syscall"
 	"time"
 
 	"github.com/richardwilkes/toolbox/collection/redblack"
 	"verifharness/hx"
 )
 
-type area struct {
-	tree  *redblack.Tree[int, int]
-	div10 bool
-	calls int
-}
-
-func (a *area) compare(x, y int) int {
-	a.calls++
-	if a.div10 {
-		// any int with the right sign is a legal compare result: use the difference, not -1/0/1
-		return x/10 - y/10
-	}
-	return cmp.Compare(x, y)
-}
-
 // slack is the "about" of the property's comparison bound (see run).
 const slack = 2
 
-// raw is the comparison without the call counter (used by the harness's own bookkeeping only).
-func (a *area) raw(x, y int) int {
-	if a.div10 {
-		return x/10 - y/10
-	}
-	return cmp.Compare(x, y)
+// shadow is the harness's own, library-independent record of what one tree must contain: per equivalence class of
+// the compare function the keys in insertion order (a removal takes the oldest). It provides n and E of the
+// comparison bound and the key multiset that Dump must print; results themselves are judged by the Lean model.
+type shadow struct {
+	classes map[int][]int
+	n       int
 }
 
-// equalCount walks the real tree and counts the stored entries whose key compares equal to key.
-func (a *area) equalCount(key int) int {
-	e := 0
-	a.tree.Traverse(func(k, _ int) bool {
-		if a.raw(key, k) == 0 {
-			e++
+func newShadow() *shadow { return &shadow{classes: map[int][]int{}} }
+
+func (s *shadow) insert(class, key int) {
+	s.classes[class] = append(s.classes[class], key)
+	s.n++
+}
+
+func (s *shadow) remove(class int) {
+	if q := s.classes[class]; len(q) > 0 {
+		if len(q) == 1 {
+			delete(s.classes, class)
+		} else {
+			s.classes[class] = q[1:]
 		}
-		return true
-	})
-	return e
+		s.n--
+	}
 }
 
-func (a *area) reset(mode string) {
-	a.div10 = mode == "div10"
-	a.tree = redblack.New[int, int](a.compare)
+func (s *shadow) keys() []int {
+	out := make([]int, 0, s.n)
+	for _, q := range s.classes {
+		out = append(out, q...)
+	}
+	slices.Sort(out)
+	return out
+}
+
+// session is the state of one history: two trees sharing one compare function. A session is abandoned as a whole when
+// an operation hangs (the stuck goroutine keeps its session; the harness continues with a fresh one at the next reset).
+type session struct {
+	tree, other     *redblack.Tree[int, int]
+	shadow, oshadow *shadow
+	div10           bool
+	style           string
+	calls           int
+	panicAt         int // the compare function panics at this call number (0 = never)
+}
+
+func (s *session) class(x int) int {
+	if s.div10 {
+		return x / 10 // Go's truncating division: -9…9 is one class
+	}
+	return x
+}
+
+// compare is the user-supplied compare function. The library may only look at the sign of the result; the style
+// decides the magnitude: sign = -1/0/1, diff = the (saturating) difference, huge = MinInt/0/MaxInt, mixed = a
+// deterministic pseudo-random magnitude.
+func (s *session) compare(x, y int) int {
+	s.calls++
+	if s.panicAt != 0 && s.calls == s.panicAt {
+		panic("compare function panics")
+	}
+	a, b := s.class(x), s.class(y)
+	c := cmp.Compare(a, b)
+	switch s.style {
+	case "diff":
+		d := a - b
+		if (c < 0) != (d < 0) || (c == 0) != (d == 0) { // the subtraction wrapped around
+			return c * math.MaxInt
+		}
+		return d
+	case "huge":
+		switch {
+		case c < 0:
+			return math.MinInt
+		case c > 0:
+			return math.MaxInt
+		}
+		return 0
+	case "mixed":
+		return c * (1 + int((uint(x)*31+uint(y)*17)%1000003))
+	}
+	return c
+}
+
+func newSession(order, style string) *session {
+	s := &session{div10: order == "div10", style: style, shadow: newShadow(), oshadow: newShadow()}
+	s.tree = redblack.New[int, int](s.compare)
+	s.other = redblack.New[int, int](s.compare)
+	return s
+}
+
+type area struct {
+	s        *session
+	hangs    int
+	poisoned bool // an operation of this history hung: skip to the next reset
+	stopped  bool // too many hangs: the rest of the stream is skipped
+	timer    *time.Timer
+}
+
+// A broken fix-up can make the real `recolor` loop spin forever (its sibling-nil branch makes no progress). Every
+// operation runs in its own goroutine with a deadline (two periods of opLimit, the second one with the process burning
+// CPU — see Run); a hang becomes the output `hang`, the rest of the history is
+// skipped (`skipped-after-crash`, which the check does not count), and after maxHangs hangs the rest of the stream is
+// skipped, so that a looping mutant costs seconds, not minutes.
+const (
+	opLimit  = 1 * time.Second
+	maxWait  = 60 * time.Second
+	maxHangs = 2
+)
+
+func (a *area) Run(line string) string {
+	isReset := strings.HasPrefix(line, "reset")
+	if a.stopped || (a.poisoned && !isReset) {
+		if isReset {
+			return "ok" // keeps the history boundaries aligned; everything else is skipped
+		}
+		return "skipped-after-crash"
+	}
+	if isReset {
+		a.poisoned = false
+	}
+	ch := make(chan string, 1)
+	go func() { ch <- hx.Safe(func() string { return a.run(line) }) }()
+	if a.timer == nil {
+		a.timer = time.NewTimer(opLimit)
+	} else {
+		a.timer.Reset(opLimit)
+	}
+	var waited, cpuBefore time.Duration
+	for {
+		select {
+		case out := <-ch:
+			if !a.timer.Stop() {
+				<-a.timer.C
+			}
+			return out
+		case <-a.timer.C:
+		}
+		// Deadline passed. A hung operation spins and therefore burns CPU: it is declared hung when, during one further
+		// full period, the process used at least half a period of CPU. If it used (almost) none, the machine is
+		// overloaded and the operation is merely starved: keep waiting (up to maxWait).
+		waited += opLimit
+		cpu := cpuTime()
+		if waited == opLimit || (cpu-cpuBefore < opLimit/2 && waited < maxWait) {
+			cpuBefore = cpu
+			a.timer.Reset(opLimit)
+			continue
+		}
+		a.hangs++
+		a.poisoned = true
+		a.s = nil // the stuck goroutine keeps the old session
+		if a.hangs >= maxHangs {
+			a.stopped = true
+		}
+		return "hang"
+	}
+}
+
+func cpuTime() time.Duration {
+	var ru syscall.Rusage
+	if syscall.Getrusage(syscall.RUSAGE_SELF, &ru) != nil {
+		return 1 << 62
+	}
+	return time.Duration(ru.Utime.Nano() + ru.Stime.Nano())
 }
 
 type visitor struct {
-	sb    strings.Builder
-	seen  int
-	limit int
+	sb      strings.Builder
+	seen    int
+	limit   int
+	panicAt int    // panic at this visit (0 = never)
+	kind    string // what to panic with
+	reent   func(key, value int)
 }
 
 func (v *visitor) visit(key, value int) bool {
@@ -73,6 +219,24 @@ func (v *visitor) visit(key, value int) bool {
 	v.sb.WriteString(strconv.Itoa(key))
 	v.sb.WriteByte(':')
 	v.sb.WriteString(strconv.Itoa(value))
+	if v.reent != nil {
+		v.reent(key, value)
+	}
+	if v.panicAt != 0 && v.seen == v.panicAt {
+		switch v.kind {
+		case "err":
+			panic(errors.New("visitor error"))
+		case "rt":
+			var m map[int]int
+			m[key] = value // runtime error: assignment to entry in nil map
+		case "nilptr":
+			panic((*int)(nil))
+		case "nil":
+			panic(nil) //nolint:govet // deliberately the nil panic value
+		default:
+			panic("visitor panics")
+		}
+	}
 	return v.seen < v.limit
 }
 
@@ -90,27 +254,39 @@ func optStr(v int, ok bool) string {
 	return strconv.Itoa(v)
 }
 
-// opStart is the start time (unix nanoseconds) of the operation in progress, 0 when idle. A broken fix-up can make
-// the real `recolor` loop spin forever (its sibling-nil branch makes no progress); the watchdog turns that into a
-// process death, which the check attributes to the line (`crash:exit3`) instead of waiting for the global timeout.
-var opStart atomic.Int64
-
-const opLimit = 2 * time.Second
-
-func watchdog() {
-	for {
-		time.Sleep(100 * time.Millisecond)
-		if s := opStart.Load(); s != 0 && time.Now().UnixNano()-s > int64(opLimit) {
-			fmt.Fprintln(os.Stderr, "c06 harness: operation did not finish within", opLimit)
-			os.Exit(3)
-		}
-	}
+// guarded runs f and reports whether it panicked (whatever the panic value, including nil).
+func guarded(f func()) (panicked bool) {
+	panicked = true
+	defer func() {
+		_ = recover()
+	}()
+	f()
+	return false
 }
 
-func (a *area) Run(line string) string {
-	opStart.Store(time.Now().UnixNano())
-	defer opStart.Store(0)
-	return a.run(line)
+// captureDump calls Tree.Dump with os.Stdout redirected into a pipe and returns what it printed.
+func captureDump(t *redblack.Tree[int, int]) string {
+	r, w, err := os.Pipe()
+	if err != nil {
+		return "pipe-error"
+	}
+	old := os.Stdout
+	done := make(chan []byte, 1)
+	go func() {
+		b, _ := io.ReadAll(r)
+		done <- b
+	}()
+	func() {
+		defer func() {
+			os.Stdout = old
+			w.Close()
+		}()
+		os.Stdout = w
+		t.Dump()
+	}()
+	b := <-done
+	r.Close()
+	return string(b)
 }
 
 func (a *area) run(line string) string {
@@ -118,81 +294,200 @@ func (a *area) run(line string) string {
 	if len(f) == 0 {
 		return "bad-op"
 	}
-	if a.tree == nil {
-		a.reset("plain")
+	if a.s == nil {
+		a.s = newSession("plain", "sign")
 	}
+	s := a.s
 	// The comparison clause of the property is judged here, on the REAL count of every operation, against the bound
-	// computed from the real tree's Count() before the operation (n) and, for lookups/removals, the number E of stored
-	// entries whose key compares equal to the probe (counted with the raw, uncounted comparison):
+	// computed from n = number of inserted-and-not-removed entries before the operation and, for lookups/removals, the
+	// number E of those entries whose key compares equal to the probe (both from the harness's own shadow record, not
+	// from the library):
 	//   Get / Remove              c <= 2*floor(log2(n+1)) + E + slack
 	//   Insert                    c <= 2*floor(log2(n+1)) + 1 + slack
 	//   (Reverse)TraverseStartingAt  c <= n + slack
 	// with slack = 2. The exact count is appended as ` c=N` for information only (the check strips it before comparing).
-	n := a.tree.Count()
+	n := s.shadow.n
 	logTerm := 2 * (bits.Len(uint(n+1)) - 1)
 	judge := func(bound int) string {
-		if a.calls <= bound {
-			return " cmp-ok c=" + strconv.Itoa(a.calls)
+		if s.calls <= bound {
+			return " cmp-ok c=" + strconv.Itoa(s.calls)
 		}
-		return " cmp-bad c=" + strconv.Itoa(a.calls) + " bound=" + strconv.Itoa(bound)
+		return " cmp-bad c=" + strconv.Itoa(s.calls) + " bound=" + strconv.Itoa(bound)
 	}
 	switch {
-	case f[0] == "reset" && len(f) == 2:
-		a.reset(f[1])
+	case f[0] == "reset" && (len(f) == 2 || len(f) == 3):
+		style := "sign"
+		if len(f) == 3 {
+			style = f[2]
+		}
+		a.s = newSession(f[1], style)
 		return "ok"
-	case f[0] == "ins" && len(f) == 3:
-		a.calls = 0
-		a.tree.Insert(hx.Atoi(f[1]), hx.Atoi(f[2]))
+	case f[0] == "swap" && len(f) == 1:
+		s.tree, s.other = s.other, s.tree
+		s.shadow, s.oshadow = s.oshadow, s.shadow
+		return "ok"
+	case (f[0] == "ins" || f[0] == "pins") && len(f) == 3:
+		key, val := hx.Atoi(f[1]), hx.Atoi(f[2])
+		s.calls = 0
+		if f[0] == "pins" {
+			s.panicAt = 1
+		}
+		panicked := guarded(func() { s.tree.Insert(key, val) })
+		s.panicAt = 0
+		if panicked {
+			if f[0] == "ins" {
+				panic("Insert panicked")
+			}
+			return "cmp-panic"
+		}
+		s.shadow.insert(s.class(key), key)
 		return "done" + judge(logTerm+1+slack)
-	case f[0] == "rem" && len(f) == 2:
+	case (f[0] == "rem" || f[0] == "prem") && len(f) == 2:
 		key := hx.Atoi(f[1])
-		e := a.equalCount(key)
-		a.calls = 0
-		a.tree.Remove(key)
+		e := len(s.shadow.classes[s.class(key)])
+		before := s.tree.Count()
+		s.calls = 0
+		if f[0] == "prem" {
+			s.panicAt = 1
+		}
+		panicked := guarded(func() { s.tree.Remove(key) })
+		s.panicAt = 0
+		if panicked {
+			if f[0] == "rem" {
+				panic("Remove panicked")
+			}
+			return "cmp-panic"
+		}
+		s.shadow.remove(s.class(key))
 		what := "absent"
-		if a.tree.Count() != n {
+		if s.tree.Count() != before {
 			what = "removed"
 		}
 		return what + judge(logTerm+e+slack)
-	case f[0] == "get" && len(f) == 2:
+	case (f[0] == "get" || f[0] == "pget") && len(f) == 2:
 		key := hx.Atoi(f[1])
-		e := a.equalCount(key)
-		a.calls = 0
-		v, ok := a.tree.Get(key)
+		e := len(s.shadow.classes[s.class(key)])
+		s.calls = 0
+		if f[0] == "pget" {
+			s.panicAt = 1
+		}
+		var v int
+		var ok bool
+		panicked := guarded(func() { v, ok = s.tree.Get(key) })
+		s.panicAt = 0
+		if panicked {
+			if f[0] == "get" {
+				panic("Get panicked")
+			}
+			return "cmp-panic"
+		}
 		return optStr(v, ok) + judge(logTerm+e+slack)
 	case f[0] == "first" && len(f) == 1:
-		return optStr(a.tree.First())
+		return optStr(s.tree.First())
 	case f[0] == "last" && len(f) == 1:
-		return optStr(a.tree.Last())
+		return optStr(s.tree.Last())
 	case f[0] == "count" && len(f) == 1:
-		return strconv.Itoa(a.tree.Count()) + " " + strconv.FormatBool(a.tree.Empty())
+		return strconv.Itoa(s.tree.Count()) + " " + strconv.FormatBool(s.tree.Empty())
 	case f[0] == "trav" && len(f) == 2:
 		v := &visitor{limit: hx.Atoi(f[1])}
-		a.tree.Traverse(v.visit)
+		s.tree.Traverse(v.visit)
 		return v.String()
 	case f[0] == "rtrav" && len(f) == 2:
 		v := &visitor{limit: hx.Atoi(f[1])}
-		a.tree.ReverseTraverse(v.visit)
+		s.tree.ReverseTraverse(v.visit)
 		return v.String()
 	case f[0] == "travfrom" && len(f) == 3:
 		v := &visitor{limit: hx.Atoi(f[2])}
-		a.calls = 0
-		a.tree.TraverseStartingAt(hx.Atoi(f[1]), v.visit)
+		s.calls = 0
+		s.tree.TraverseStartingAt(hx.Atoi(f[1]), v.visit)
 		return v.String() + judge(n+slack)
 	case f[0] == "rtravfrom" && len(f) == 3:
 		v := &visitor{limit: hx.Atoi(f[2])}
-		a.calls = 0
-		a.tree.ReverseTraverseStartingAt(hx.Atoi(f[1]), v.visit)
+		s.calls = 0
+		s.tree.ReverseTraverseStartingAt(hx.Atoi(f[1]), v.visit)
 		return v.String() + judge(n+slack)
+	case (f[0] == "ptrav" || f[0] == "prtrav") && len(f) == 3,
+		(f[0] == "ptravfrom" || f[0] == "prtravfrom") && len(f) == 4:
+		// a visitor that panics at its j-th visit (kind = panic value), or (kind reent) that never panics, stops after j
+		// visits and calls read-only methods of the tree from inside the traversal
+		j, kind := hx.Atoi(f[len(f)-2]), f[len(f)-1]
+		v := &visitor{kind: kind}
+		reentBad := ""
+		if kind == "reent" {
+			v.limit = j
+			tree := s.tree
+			v.reent = func(key, _ int) {
+				if _, ok := tree.Get(key); !ok {
+					reentBad = " reent-get-missed-" + strconv.Itoa(key)
+				}
+				if tree.Count() != n {
+					reentBad = " reent-count"
+				}
+				if _, ok := tree.First(); !ok {
+					reentBad = " reent-first"
+				}
+			}
+		} else {
+			v.limit = math.MaxInt
+			v.panicAt = j
+		}
+		panicked := guarded(func() {
+			switch f[0] {
+			case "ptrav":
+				s.tree.Traverse(v.visit)
+			case "prtrav":
+				s.tree.ReverseTraverse(v.visit)
+			case "ptravfrom":
+				s.tree.TraverseStartingAt(hx.Atoi(f[1]), v.visit)
+			default:
+				s.tree.ReverseTraverseStartingAt(hx.Atoi(f[1]), v.visit)
+			}
+		})
+		if panicked {
+			return v.String() + " panicked" + reentBad
+		}
+		return v.String() + " done" + reentBad
+	case f[0] == "dumpapi" && len(f) == 1:
+		before := s.tree.VerifDump()
+		text := captureDump(s.tree)
+		after := s.tree.VerifDump()
+		lines := strings.Split(strings.TrimSuffix(text, "\n"), "\n")
+		if text == "" {
+			lines = nil
+		}
+		keys := make([]int, 0, len(lines))
+		keysOK := "keys-ok"
+		for _, l := range lines {
+			l = strings.TrimLeft(l, " ")
+			if len(l) < 2 || (l[0] != 'r' && l[0] != 'b') {
+				keysOK = "keys-BAD(line)"
+				break
+			}
+			l = strings.TrimPrefix(strings.TrimPrefix(l[1:], "L "), "R ")
+			k, err := strconv.Atoi(l)
+			if err != nil {
+				keysOK = "keys-BAD(parse)"
+				break
+			}
+			keys = append(keys, k)
+		}
+		slices.Sort(keys)
+		if keysOK == "keys-ok" && !slices.Equal(keys, s.shadow.keys()) {
+			keysOK = "keys-BAD(multiset)"
+		}
+		changed := "unchanged"
+		if before != after {
+			changed = "CHANGED"
+		}
+		return "lines=" + strconv.Itoa(len(lines)) + " " + keysOK + " " + changed
 	case f[0] == "dump" && len(f) == 1:
-		return a.tree.VerifDump()
+		return s.tree.VerifDump()
 	case f[0] == "inv" && len(f) == 1:
-		return a.tree.VerifCheck()
+		return s.tree.VerifCheck()
 	}
 	return "bad-op"
 }
 
 func main() {
-	go watchdog()
 	hx.Main(map[string]hx.Area{"rbtree": &area{}})
 }
